@@ -592,6 +592,29 @@ def h_u_call(w, st, rec):
     post = [digest(x) for x in owned]
     w.apis[site] += 1
     note_probes_utils(w, rec, args, out)
+    if rec.get("arm") is not None and out[0] == "exc" and "injected by simulator" in str(out[1]) and not any_ref(rec) \
+            and not rec.get("bykw") and not ("random_state" in rec.get("kw", {}) and rec["kw"]["random_state"] is None):
+        # the FIRST attempt at this call died in a numpy call; the caller simply tries again.  What the second
+        # attempt returns is compared with the history-free reference (always evaluated): whatever the failed attempt
+        # left behind at module level (a memo written in a finally, a half-filled table) must not reach it.
+        args_b = [build_arg(w, st, a) for a in rec["args"]]
+        if rec.get("same_object"):
+            args_b[rec["same_object"][1]] = args_b[rec["same_object"][0]]
+        kw_b = {k: build_arg(w, st, v) for k, v in rec.get("kw", {}).items()}
+        if "dtype" in kw_b and isinstance(kw_b["dtype"], str):
+            kw_b["dtype"] = np.dtype(kw_b["dtype"])
+        out_b = w.call(f, *args_b, **kw_b)
+        w.probes["call.tried_again_after_an_attempt_that_died"] += 1
+        key_b = jkey({"fn": name, "args": rec["args"], "kw": rec.get("kw", {}), "same": rec.get("same_object"),
+                      "after": "failed attempt"})
+        if key_b not in st.oblig and not hasattr(out_b[1], "__next__"):
+            lit = {"op": "u.call", "fn": name, "args": rec["args"], "kw": rec.get("kw", {})}
+            if rec.get("same_object"):
+                lit["same_object"] = rec["same_object"]
+            st.oblig[key_b] = {"ops": [lit], "expect": (outcome_digest(*out_b), plain(out_b[1])), "step": w.step,
+                               "site": site, "cls": "result_depends_on_history", "priority": True,
+                               "variant": "pristine (the call tried again right after an attempt that died in a "
+                                          "numpy call)"}
     if pre != post:
         w.violate("argument_modified", site, {"which": [i for i, (x, y) in enumerate(zip(pre, post)) if x != y]})
     if out[0] == "ok" and hasattr(out[1], "__next__"):
@@ -1058,8 +1081,11 @@ def execute(sempler, run_seed, ops, pristine_budget=4):
             st.distinct.add(("utils", rec["fn"], oc, 0, "-", False, len(st.models) > 0 and w.step > 3))
     w.distinct = st.distinct
     keys = sorted(st.oblig, key=lambda k: st.oblig[k]["step"])
+    first_class = [k for k in keys if st.oblig[k].get("priority")][:2]      # (always evaluated, at most two per run)
+    keys = [k for k in keys if k not in first_class]
     if pristine_budget is not None and len(keys) > pristine_budget:
         keys = w.streams["pristine"].sample(keys, pristine_budget)
+    keys = first_class + keys
     obl = [st.oblig[k] for k in keys]
     po = [r for r in ops if r.get("op") == "np.printoptions"][:1]
     if po:
